@@ -9,7 +9,7 @@ operation.  A set of boundaries is re-validated by really killing a child proces
 import collections
 import os
 
-from .. import common, refmodel, world as W
+from .. import common, ladder, refmodel, world as W
 from ..ioseam import SEAM, Plan
 from .base import E1Check, viol
 
@@ -84,10 +84,17 @@ class C12(E1Check):
         )
 
     def configs(self):
-        return [
+        cfgs = [
             {"name": "csv/auto", "storage": "csv", "auto_index": True},
             {"name": "csv/manual", "storage": "csv", "auto_index": False},
         ]
+        # a run of twelve single appends with nothing in between (a grouped / deferred commit would show here)
+        run = tuple(("insert", "G%d" % i, None, False, "db") for i in range(12))
+        cfgs.append({"name": "csv/auto/after-12-appends", "storage": "csv", "auto_index": True, "N": 20, "D": 2, "init": run})
+        # files larger than one I/O buffer: rewrites that keep the file size, removals, appends
+        for n in (130,) if self.tier == "quick" else (130, 1300):
+            cfgs += ladder.configs((n,), storages=("csv",), autos=(True,), D=1)
+        return cfgs
 
     def bounds(self):
         return {"N": 4, "D": 4} if self.tier == "quick" else {"N": 5, "D": 5, "max_states": 60000}
@@ -101,6 +108,9 @@ class C12(E1Check):
 
     def op_list(self, cfg):
         return crash_ops(self.alpha, self.tier)
+
+    def ladder_op_list(self, cfg):
+        return [o for o in ladder.ops(self.alpha, cfg) if o[0] != "read_storm" and not (o[0] == "insert_multiple")]
 
     def apply(self, world, op, T):
         plan = SEAM.begin(Plan(watch=world.path, snapshot=True))
